@@ -51,6 +51,9 @@ CHECKS = {
  "C19": (EX, "exhaustive enumeration of (transformation x input moments x target parameters x process / keep_mean x source / store names) on a complete probability grid; the distributional claim decided by the deterministic quantile identity T(mu + sigma z_p) = F_target^-1(p)",
          "Every array transformation and every Field.transform wrapper is evaluated on the normal quantiles of all p in {1e-6, k/1000, 1-1e-6} for three (mu, sigma^2) plus a seed-selected one and compared with the closed-form target quantiles (log-normal, uniform, arcsine, U-quadratic incl. default bounds preserving mean and variance, Zinn-Harvey on |z| quantiles, force-moments on several arrays, Box-Cox round trip); discrete / binary transforms are fed every threshold, its floating-point neighbours and +-1e-9; wrappers are compared with array function o pre/post-processing for every flag and name combination.",
          "probability grid of 1001 points; exact threshold hits for 'equal' thresholds are in the guard band (computed by the library)", "5/C19"),
+ "C16": (EX, "bounded exhaustive enumeration of (model class x dim x mode number x seed x mean velocity); per execution the mode amplitudes are solved from the public output and checked against the solenoidal condition and the documented projector; direction law over a complete seed window",
+         "For every enumerated configuration the vector field is decomposed into its known finite set of plane waves by an exactly determined linear solve on the public output: k_j . A_j = k_j . B_j = 0 for all modes is equivalent to zero divergence at every point (not only at sampled points), the constant term is the mean velocity, the amplitudes equal the projector identity, and the per-seed component variances follow exactly; a finite-difference divergence below its truncation bound is checked through the API alone. The variance proportions (3/8, 1/8) / (8/15, 1/15, 1/15) are decided on the pooled directions of a complete seed window with a 6-sigma region.",
+         "mode numbers <= 8 for the amplitude solve; the direction law is the one statistical acceptance region (finite seed window)", "5/C16"),
 }
 PENDING = {}
 def main():
